@@ -1,11 +1,14 @@
-(* C13 — correspondence glue.  A case = one scenario of the harness: a table of MACs computed by
-   the implementation's HMAC (key id, data, mac) and a list of observations, each re-run on the
-   model:
-     SVerify  signed_bitmessage_to_buf + TSigner::verify_message_byte on a message
-     SSrv     Catalog + SqliteZoneHandler on a decoded request: rcode, reply TSIG, zone changed,
-              zone data returned, and the TSIG record of the reply against sign_ctx
-     SDropped the request did not decode
-     SCli     TSigVerifier::verify on a reply *)
+(* C13 — correspondence glue.  A case = one scenario of the harness: the request bytes, the reply
+   bytes (if any), a table of MACs computed by the implementation's HMAC (key id, data, mac) and a
+   list of observations, each re-run on the model:
+     SVerify  signed_bitmessage_to_buf + TSigner::verify_message_byte on the request
+              (MAC input byte for byte; verdict class)
+     SSrv     Catalog + SqliteZoneHandler on the decoded request: rcode, class of the reply's TSIG
+              record, zone changed, zone data returned; the reply's TSIG record field by field
+              against sign_ctx on the reply as encoded without it
+     SDropped the request did not decode (no handler ran)
+     SCli     TSigVerifier::verify on the reply, optionally with bytes overwritten / appended
+              (bit flips, count attacks, duplicated TSIG record, a chained second message) *)
 From HV Require Import Lib.Base Lib.Pack C13.Model.
 Open Scope N_scope.
 
